@@ -107,7 +107,8 @@ def build_symbolic(shape, profile=False):
         ctx = shape.build(P)
         ctx.P = P
         if shape.initialize:
-            solver = ps.SchedulingSolver(problem=ctx.problem, **shape.solver_cfg)
+            # a shape may construct the solver object early (before later declarations)
+            solver = getattr(ctx, "early_solver", None) or ps.SchedulingSolver(problem=ctx.problem, **shape.solver_cfg)
             solver.initialize()
             ctx.solver = solver
             ctx.phi = list(solver._solver.assertions())
@@ -137,7 +138,7 @@ def build_concrete(shape, values, solver_cfg=None, initialize=True):
         cfg = dict(shape.solver_cfg)
         cfg.update(solver_cfg or {})
         if initialize and shape.initialize:
-            solver = ps.SchedulingSolver(problem=ctx.problem, **cfg)
+            solver = getattr(ctx, "early_solver", None) or ps.SchedulingSolver(problem=ctx.problem, **cfg)
             solver.initialize()
             ctx.solver = solver
             ctx.phi = list(solver._solver.assertions())
@@ -146,7 +147,7 @@ def build_concrete(shape, values, solver_cfg=None, initialize=True):
 
 
 def _base(ctx, path):
-    return list(path.assume) + list(path.pc) + list(ctx.extra_assume)
+    return [formula.to_z3(x) for x in list(path.assume) + list(path.pc) + list(ctx.extra_assume)]
 
 
 def witness_from_model(model, assertions, P):
@@ -158,6 +159,16 @@ def witness_from_model(model, assertions, P):
         params[name] = formula.val(model, t) if z3.is_expr(t) else t
     pins = {k: v for k, v in md.items() if not k.startswith("p_") and not k.startswith("__choice")}
     return params, pins
+
+
+def alias_values(model, ctx):
+    """Values of observables whose z3 names contain run-specific uids (applied flags, selection
+    Booleans): recorded under a stable alias chosen by the shape (ctx.named)."""
+    out = {}
+    for alias, term in (getattr(ctx, "named", None) or {}).items():
+        if z3.is_expr(term):
+            out[alias] = formula.val(model, term)
+    return out
 
 
 def decide(ob, ctx, path):
@@ -179,11 +190,14 @@ def decide(ob, ctx, path):
             res["reach"] = rv
             if rv == "unsat":
                 res["status"] = "vacuous"
+                if ob.extra.get("vacuous_ok"):
+                    res["status"] = "unsat"
+                    res["vacuous_by_design"] = True
             elif rv != "sat":
                 res["status"] = "unknown"
         elif verdict == "sat":
             params, pins = witness_from_model(model, q, ctx.P)
-            res["witness"] = {"params": params, "pins": pins}
+            res["witness"] = {"params": params, "pins": pins, "alias_pins": alias_values(model, ctx)}
         res["smt_sample"] = z3.And([guard, z3.Not(clause)]).sexpr()[:600]
     elif ob.kind == "complete":
         valid = formula.to_z3(ob.valid)
@@ -292,11 +306,25 @@ def replay_schedule(desc):
         # pins are expressed over the variables of a throw-away initialised solver
         probe = ps.SchedulingSolver(problem=ctx.problem, **shape.solver_cfg)
         probe.initialize()
+        if getattr(ctx, "early_solver", None) is not None:
+            early0 = ctx.early_solver
+            early0.initialize()
+            probe = early0
         consts0, _ = formula.constants(list(probe._solver.assertions()))
         pins = pin_expr(consts0, w["pins"])
-        for i, e in enumerate(pins):
-            ps.ConstraintFromExpression(name=f"__pin_{i}", expression=e)
-        solver = ps.SchedulingSolver(problem=ctx.problem, **shape.solver_cfg)
+        named = {a: t for a, t in (getattr(ctx, "named", None) or {}).items() if z3.is_expr(t)}
+        pins += pin_expr(named, w.get("alias_pins") or {})
+        early = getattr(ctx, "early_solver", None)
+        if early is not None:
+            # the witness schedule is pinned on the early-constructed solver object itself
+            solver = early
+            solver.initialize()
+            for e in pins:
+                solver.append_z3_assertion(e)
+        else:
+            for i, e in enumerate(pins):
+                ps.ConstraintFromExpression(name=f"__pin_{i}", expression=e)
+            solver = ps.SchedulingSolver(problem=ctx.problem, **shape.solver_cfg)
         solution = solver.solve()
     engine.reset_z3_globals()
     ctx.solver = solver
